@@ -14,6 +14,7 @@ mod c17;
 pub mod c10;
 pub mod zone;
 pub mod tzdb;
+pub mod c19;
 
 pub fn generate(suite: &str, tier: &str, seed: u64) -> Vec<String> {
     let mut rng = Rng::new(seed);
@@ -33,6 +34,7 @@ pub fn generate(suite: &str, tier: &str, seed: u64) -> Vec<String> {
         "c10" => c10::generate(&mut rng, thorough),
         "c13" => zone::generate_c13(&mut rng, thorough),
         "c15" => tzdb::generate(&mut rng, thorough),
+        "c19" => c19::generate(&mut rng, thorough),
         "c14" => zone::generate_c14(&mut rng, thorough),
         _ => panic!("unknown suite {suite}"),
     }
@@ -72,6 +74,9 @@ pub fn eval_more(t: &[&str]) -> String {
         return s;
     }
     if let Some(s) = tzdb::eval(t) {
+        return s;
+    }
+    if let Some(s) = c19::eval(t) {
         return s;
     }
     format!("?bad-op {}", t[0])
